@@ -9,11 +9,15 @@ Local Open Scope nat_scope.
    body, Repeat action or invariant, Custom generator function (kept or rejected attempt), cleanup callback of
    the outer or of an inner T - user code calls Error/Errorf/Fail, Fatal/Fatalf/FailNow, or panics (any kind of
    signal), then the test case neither passes nor counts as invalid: it is a failure (or the model's fuel
-   artefact) - whatever happens afterwards, including a Skip by the property or by a cleanup function. *)
+   artefact) - whatever happens afterwards, including a Skip by the property or by a cleanup function.
+   A panic is covered unless a cleanup function of a Custom generator's inner T runs out of data afterwards
+   (an internal invalid-data exception, which flags the run [dirty]): that exception replaces the panic and the
+   attempt is rejected - in the code as well.  Error/Fatal signals are covered unconditionally. *)
 Theorem C02_signal_fails_case :
   forall geom LF lvl p x k mm id,
     let o := checkOnce geom LF lvl p (start x) in
     In (USignal k mm id) (tr (w o)) ->
+    (k = KPanic -> dirty (w o) = false) ->
     ~ ((exists u, res o = Ok u) \/ (exists m, res o = Err (XInvalid m))).
 Proof. exact signal_fails_case_any. Qed.
 Print Assumptions C02_signal_fails_case.
